@@ -173,6 +173,18 @@ theorem juxtaposition_level (a u b v k : String) (hu : u ≠ "%") (hv : v ≠ "%
   · exact jux_comb a u b v hu hv g
   · exact jux_perm a u b v hu hv g
 
+/-- further shapes, symbolic in their strings: an implicit sum of two quantities (`5 ft 3 in`) is one `implicitPlus` of two
+juxtapositions; `to` applies to everything on its left down to the additive level (`a u + b v to w` converts the SUM); a
+function name followed by a number is an application -/
+theorem more_shapes (a u b v w f : String) (hu : u ≠ "%") (hv : v ≠ "%") (hw : w ≠ "%") (g : Nat) :
+    run (g + 60) .statements [.num a, .ident u, .num b, .ident v] =
+      some (.bop .implicitPlus (.applyMul (.num a) (.ident u)) (.applyMul (.num b) (.ident v)), []) ∧
+    run (g + 60) .statements [.num a, .ident u, .sym .conv, .ident v] = some (.as_ (.applyMul (.num a) (.ident u)) (.ident v), []) ∧
+    run (g + 60) .statements [.num a, .ident u, .sym .add, .num b, .ident v, .sym .conv, .ident w] =
+      some (.as_ (.bop .plus (.applyMul (.num a) (.ident u)) (.applyMul (.num b) (.ident v))) (.ident w), []) ∧
+    run (g + 60) .statements [.ident f, .num a] = some (.applyFn (.ident f) (.num a), []) :=
+  jux_more a u b v w f hu hv hw g
+
 -- non-vacuity: `a = b = 1 == 2 ; 3 != 4 ; 5` is stmts (stmts (assign a (assign b (1 == 2))) (3 != 4)) 5
 private def c6 (n : String) : Chain 6 := .up (.up (.up (.up (.up (.up (num n))))))
 private def exTop : AsT := .assign "a" (.assign "b" (.plain (.cmp true (c6 "1") (c6 "2"))))
